@@ -274,7 +274,7 @@ func (m Mutant) with(b []byte) Mutant { m.Bytes = b; return m }
 
 func c01Counts(tier string) (fam, flips int) {
 	if tier == "thorough" {
-		return 4000, 50
+		return 16000, 80
 	}
 	return 150, 2
 }
